@@ -1,0 +1,12 @@
+//go:build verif
+
+package verifhook
+
+import (
+	"github.com/gogpu/naga/internal/registry"
+)
+
+// TypeRegistry re-exports internal/registry.TypeRegistry.
+type TypeRegistry = registry.TypeRegistry
+
+func NewTypeRegistry() *TypeRegistry { return registry.NewTypeRegistry() }
